@@ -223,6 +223,19 @@ struct CallSpec {
     splits: [u64; 3],
     latency: [u64; 3],
     cut: u64,
+    /// 0..31: the status is STATUSES[status]; 32..63: one of WIDE_STATUSES (other 2xx, 4xx, 5xx codes)
+    wide: u64,
+}
+
+/// "every 4xx or 5xx status" / "2xx": codes beyond the nine listed ones (no 1xx/3xx; 205 has no body by definition)
+const WIDE_STATUSES: [u16; 32] = [202, 203, 206, 207, 208, 226, 402, 405, 406, 408, 409, 410, 411, 413, 415, 418, 422, 423, 425, 426, 428, 429, 431, 451, 501, 502, 504, 505, 507, 508, 510, 511];
+
+fn status_of(c: &CallSpec) -> u16 {
+    if c.wide >= 32 {
+        WIDE_STATUSES[(c.wide - 32) as usize % 32]
+    } else {
+        STATUSES[c.status]
+    }
 }
 
 #[derive(Clone, Debug)]
@@ -237,7 +250,7 @@ fn decode_call(ch: &mut Chooser, n_ops: usize) -> CallSpec {
     CallSpec {
         op: ch.choose("op", n_ops as u64) as usize,
         variant: ch.choose("request_variant", 3),
-        mutmask: ch.choose("mutation_mask", 256),
+        mutmask: ch.choose("mutation_mask", 1024),
         status: ch.choose("status", 9) as usize,
         body_kind: ch.choose("body", 8) as usize,
         transport: ch.choose("transport", 5) as usize,
@@ -245,6 +258,7 @@ fn decode_call(ch: &mut Chooser, n_ops: usize) -> CallSpec {
         splits: [ch.choose("split", 1 << 16), ch.choose("split", 1 << 16), ch.choose("split", 1 << 16)],
         latency: [ch.choose("latency_us", 5000), ch.choose("latency_us", 5000), ch.choose("latency_us", 5000)],
         cut: ch.choose("cut_at", 1 << 20),
+        wide: ch.choose("wide_status", 64),
     }
 }
 
@@ -261,11 +275,22 @@ fn decode_scenario(ch: &mut Chooser, infos: &[ClientInfo]) -> Scenario {
 }
 
 fn call_values(c: &CallSpec) -> Vec<u64> {
-    vec![c.op as u64, c.variant, c.mutmask, c.status as u64, c.body_kind as u64, c.transport as u64, c.trunc, c.splits[0], c.splits[1], c.splits[2], c.latency[0], c.latency[1], c.latency[2], c.cut]
+    vec![c.op as u64, c.variant, c.mutmask, c.status as u64, c.body_kind as u64, c.transport as u64, c.trunc, c.splits[0], c.splits[1], c.splits[2], c.latency[0], c.latency[1], c.latency[2], c.cut, c.wide]
 }
 
 fn encode_single(client: usize, creds: u64, c: &CallSpec) -> Vec<u64> {
     let mut v = vec![client as u64, creds, 0, 0];
+    v.extend(call_values(c));
+    v
+}
+
+/// three sequential single-call rounds
+fn encode_triple(client: usize, creds: u64, a: &CallSpec, b: &CallSpec, c: &CallSpec) -> Vec<u64> {
+    let mut v = vec![client as u64, creds, 2, 0];
+    v.extend(call_values(a));
+    v.push(0);
+    v.extend(call_values(b));
+    v.push(0);
     v.extend(call_values(c));
     v
 }
@@ -294,10 +319,10 @@ impl Instances {
         if variant >= 2 {
             if let Some(ms) = self.v[op].get("mutations").and_then(Value::as_array) {
                 let mut mask = mask;
-                if mask % (1 << ms.len().min(8)) == 0 {
+                if mask % (1 << ms.len().min(10)) == 0 {
                     mask = 1; // a "mutated" variant applies at least one mutation
                 }
-                for (i, m) in ms.iter().enumerate().take(8) {
+                for (i, m) in ms.iter().enumerate().take(10) {
                     if mask >> i & 1 == 1 {
                         if let (Some(f), Some(r)) = (m["find"].as_str(), m["replace"].as_str()) {
                             if s.contains(f) {
@@ -420,7 +445,8 @@ fn run_scenario(infos: &[ClientInfo], insts: &[Instances], sc: &Scenario, ch: &m
             2 => String::new(),
             3 => "Service Unavailable: upstream timed out".to_string(),
             4 => {
-                let t = 1 + (c.trunc as usize) % exact.len().saturating_sub(1).max(1);
+                // the top 16 values cut 1..16 bytes off the end (a reply missing only its final `>`), the rest anywhere
+                let t = if c.trunc >= (1 << 20) - 16 { exact.len().saturating_sub(1 + ((1 << 20) - 1 - c.trunc) as usize).max(1) } else { 1 + (c.trunc as usize) % exact.len().saturating_sub(1).max(1) };
                 exact[..floor_char(&exact, t.min(exact.len().saturating_sub(1)))].to_string()
             }
             5 | 7 => FAULT.to_string(),
@@ -434,7 +460,7 @@ fn run_scenario(infos: &[ClientInfo], insts: &[Instances], sc: &Scenario, ch: &m
         };
         let splits: Vec<usize> = if c.transport == 4 && body.len() > 1 { c.splits.iter().map(|s| 1 + (*s as usize) % (body.len() - 1)).collect() } else { vec![] };
         scripts.push(Script {
-            status: STATUSES[c.status],
+            status: status_of(c),
             body: body.clone().into_bytes(),
             transport,
             splits,
@@ -515,7 +541,7 @@ fn run_scenario(infos: &[ClientInfo], insts: &[Instances], sc: &Scenario, ch: &m
         let my_reqs: Vec<&sim::Request> = reqs.iter().filter(|(t, _)| *t == i).map(|(_, r)| r).collect();
         let connects = hist.iter().filter(|r| r.task == i && r.kind == EvKind::ConnectAttempt).count();
         let result = outcome.results[i].clone();
-        let status = STATUSES[c.status];
+        let status = status_of(c);
         let id = format!("{}::{}", info.name, opname);
         let restricted = p.twin_check.is_err() || p.parts_check.is_err();
         let is_free = opname.starts_with("fn:");
@@ -585,7 +611,7 @@ fn run_scenario(infos: &[ClientInfo], insts: &[Instances], sc: &Scenario, ch: &m
         }
         // N3: result dichotomy
         let delivered_full = matches!(c.transport, 0 | 4);
-        let status_ok = matches!(status, 200 | 201);
+        let status_ok = (200..300).contains(&status) && status != 204 && status != 205;
         let gated_ok = delivered_full && status_ok && matches!(c.body_kind, 0 | 1);
         let gated_err = !delivered_full || (400..600).contains(&status) || matches!(c.body_kind, 2 | 3 | 4) || status == 204;
         match &result {
@@ -673,7 +699,7 @@ fn run_batch(infos_fn: fn() -> Vec<ClientInfo>, tapes: &[Vec<u64>], property: &'
                     }
                                         // enumerated multi-round histories and every `isolate_every`-th run execute in a fresh thread (no
                     // thread-local state can leak in); the bulk runs on the worker thread
-                    let multi_round_enumerated = tapes[i].get(2).copied().unwrap_or(0) > 0 && tapes[i].len() < 48;
+                    let multi_round_enumerated = tapes[i].get(2).copied().unwrap_or(0) > 0 && tapes[i].len() < 64;
                     let (facts, ch, sc) = if multi_round_enumerated || (isolate_every > 0 && i % isolate_every == 0) { run_isolated(&infos, &insts, &tapes[i], property) } else { run_inline(&infos, &insts, &tapes[i], property) };
                     if multi_round_enumerated || (isolate_every > 0 && i % isolate_every == 0) {
                         *st.probes.entry("runs_in_fresh_thread".into()).or_insert(0) += 1;
@@ -806,7 +832,7 @@ fn build_tapes(infos: &[ClientInfo], property: &str, tier: &str, seed: u64) -> (
     let thorough = tier == "thorough";
     let mut tapes = Vec::new();
     let mut n_enum = 0u64;
-    let base = CallSpec { op: 0, variant: 0, mutmask: 0, status: 0, body_kind: 0, transport: 0, trunc: 0, splits: [0; 3], latency: [0; 3], cut: 0 };
+    let base = CallSpec { op: 0, variant: 0, mutmask: 0, status: 0, body_kind: 0, transport: 0, trunc: 0, splits: [0; 3], latency: [0; 3], cut: 0, wide: 0 };
     if property == "C16" {
         // the script product, one call at a time, for every operation of every client
         for (ci, info) in infos.iter().enumerate() {
@@ -837,14 +863,28 @@ fn build_tapes(infos: &[ClientInfo], property: &str, tier: &str, seed: u64) -> (
                     }
                 }
                 // truncation at boundaries + seeded offsets; adversarial credentials
-                for t in 0..(if thorough { 400 } else { 24 }) {
+                for t in 0..(if thorough { 400 } else { 36 }) {
                     let mut c = base.clone();
                     c.op = op;
                     c.body_kind = 4;
                     c.variant = t % 2;
-                    c.trunc = if t < 4 { t } else if t < 8 { (1 << 20) - t } else { Rng::derive(seed, "net-trunc", t + ((op as u64) << 10)).below(1 << 20) };
+                    c.trunc = if t < 4 { t } else if t < 20 { (1 << 20) - 1 - (t - 4) } else { Rng::derive(seed, "net-trunc", t + ((op as u64) << 10)).below(1 << 20) };
                     tapes.push(encode_single(ci, 0, &c));
                     n_enum += 1;
+                }
+                for w in 32..64u64 {
+                    for body in [0usize, 2] {
+                        if !thorough && (w + op as u64) % 2 == 1 {
+                            continue;
+                        }
+                        let mut c = base.clone();
+                        c.op = op;
+                        c.variant = 1;
+                        c.wide = w;
+                        c.body_kind = body;
+                        tapes.push(encode_single(ci, 0, &c));
+                        n_enum += 1;
+                    }
                 }
                 for creds in (2..6u64).chain(if op == 0 { 6..N_CREDS } else { 6..14 }) {
                     let mut c = base.clone();
@@ -905,6 +945,30 @@ fn build_tapes(infos: &[ClientInfo], property: &str, tier: &str, seed: u64) -> (
             }
         }
     }
+    // histories of three calls: the third call after two good ones, after an HTTP error, after a transport failure
+    for (ci, info) in infos.iter().enumerate() {
+        for op in 0..info.ops.len() {
+            let mk = |variant: u64, mask: u64, status: usize, body: usize, transport: usize| {
+                let mut c = base.clone();
+                c.op = op;
+                c.variant = variant;
+                c.mutmask = mask;
+                c.status = status;
+                c.body_kind = body;
+                c.transport = transport;
+                c
+            };
+            let good = mk(1, 0, 0, 0, 0);
+            for second in [mk(1, 0, 0, 0, 0), mk(1, 0, 7, 5, 0), mk(1, 0, 0, 0, 2), mk(2, 1, 0, 0, 0)] {
+                for third in [mk(2, 1, 0, 0, 0), mk(2, 4, 0, 0, 0), mk(1, 0, 2, 2, 0), mk(1, 0, 8, 2, 0), mk(1, 0, 0, 0, 0)] {
+                    for creds in [0u64, 1] {
+                        tapes.push(encode_triple(ci, creds, &good, &second, &third));
+                        n_pairs += 1;
+                    }
+                }
+            }
+        }
+    }
     n_enum += n_pairs;
     // seeded: 1..3 rounds of 1..3 concurrent calls, interleavings, chunkings, latencies, all truncation offsets
     let n_seeded = if thorough { 6_000_000 } else { 40_000 };
@@ -925,7 +989,7 @@ fn build_tapes(infos: &[ClientInfo], property: &str, tier: &str, seed: u64) -> (
         }
         tapes.push(v);
     }
-    (tapes, json!({"enumerated_single_call_scripts": n_enum, "seeded_runs": n_seeded, "dimensions": {"status": STATUSES, "body": BODY_KINDS, "transport": TRANSPORTS, "credentials": CREDS}}))
+    (tapes, json!({"enumerated_single_call_scripts": n_enum, "seeded_runs": n_seeded, "dimensions": {"status": STATUSES, "further_statuses": WIDE_STATUSES, "body": BODY_KINDS, "transport": TRANSPORTS, "credentials": CREDS}}))
 }
 
 fn main() {
@@ -955,7 +1019,7 @@ fn main() {
             eprintln!("no client {want}");
             std::process::exit(2);
         };
-        let base = CallSpec { op: 0, variant: 1, mutmask: 0, status: 0, body_kind: 0, transport: 0, trunc: 40, splits: [5, 60, 120], latency: [0; 3], cut: 30 };
+        let base = CallSpec { op: 0, variant: 1, mutmask: 0, status: 0, body_kind: 0, transport: 0, trunc: 40, splits: [5, 60, 120], latency: [0; 3], cut: 30, wide: 0 };
         let mut out = Vec::new();
         for status in 0..9 {
             for body in 0..8 {
